@@ -62,6 +62,11 @@ pub struct ParWorkload {
     /// keys `F.a` .. `F.d`; fact-writing actions then use set_nested on a member nobody reads
     #[serde(default)]
     pub nested: bool,
+    /// the engine object is not new: before the judged call it has run another knowledge base of the same
+    /// name, built with the same number of add_rule calls (so: the same version number), whose rules carry the
+    /// same names but the NEGATED conditions — on facts of its own (1), or twice (2)
+    #[serde(default)]
+    pub warm: u8,
 }
 
 fn fname(f: u8) -> String {
@@ -134,6 +139,10 @@ fn has_foreign_literal(c: &PCond) -> bool {
 }
 
 fn build_kb(w: &ParWorkload) -> KnowledgeBase {
+    build_kb_with(w, false)
+}
+
+fn build_kb_with(w: &ParWorkload, negated: bool) -> KnowledgeBase {
     let kb = KnowledgeBase::new("par");
     for (i, r) in w.rules.iter().enumerate() {
         let mut actions = Vec::new();
@@ -143,7 +152,8 @@ fn build_kb(w: &ParWorkload) -> KnowledgeBase {
         if let Some(k) = r.custom {
             actions.push(ActionType::Custom { action_type: ["dropD", "setD7", "setE7", "nestE7", "failE"][k as usize % 5].to_string(), params: std::collections::HashMap::new() });
         }
-        let mut rule = Rule::new(format!("R{i}"), to_group(&r.cond), actions).with_salience(r.salience);
+        let cond = if negated { ConditionGroup::not(to_group(&r.cond)) } else { to_group(&r.cond) };
+        let mut rule = Rule::new(format!("R{i}"), cond, actions).with_salience(r.salience);
         if r.dates % 4 == 1 || r.dates % 4 == 3 {
             rule = if r.dates % 4 == 1 { rule.with_date_expires_str("2001-01-01T00:00:00Z").unwrap() } else { rule.with_date_effective_str("2001-01-01T00:00:00Z").unwrap() };
         }
@@ -221,7 +231,14 @@ pub fn scenario(w: &ParWorkload, slot: &Shared) {
     let kb = build_kb(w);
     let facts = build_facts(w);
     let before = facts.get_all_facts();
-    let result = match engine(w, w.enabled).execute_parallel(&kb, &facts, w.cfg.1) {
+    let eng = engine(w, w.enabled);
+    for _ in 0..w.warm.min(2) {
+        let other = build_kb_with(w, true);
+        let other_facts = build_facts(w);
+        let _ = eng.execute_parallel(&other, &other_facts, false);
+        count(slot, "probe.engine_object_ran_another_knowledge_base_first");
+    }
+    let result = match eng.execute_parallel(&kb, &facts, w.cfg.1) {
         Ok(r) => r,
         Err(e) => fail(slot, "par.returns", "execute-parallel-returned-error", format!("execute_parallel returned an error: {e}")),
     };
@@ -407,11 +424,17 @@ pub fn generate(rng: &mut Rng, _thorough: bool) -> ParWorkload {
         enabled: !rng.chance(1, 6),
         cfg: (rng.chance(1, 2), rng.chance(1, 10)),
         nested,
+        warm: *rng.pick(&[0u8, 0, 0, 0, 0, 1, 1, 2]),
     }
 }
 
 pub fn shrink(w: &ParWorkload) -> Vec<ParWorkload> {
     let mut out = Vec::new();
+    if w.warm > 0 {
+        let mut c = w.clone();
+        c.warm -= 1;
+        out.push(c);
+    }
     let n = w.rules.len();
     if n > 1 {
         let mut c = w.clone();
